@@ -1,6 +1,6 @@
 """C10 configuration for ./check (see checks/propcfg.py for the keys)."""
 CFG = {
-    "modules": ["VaxisModel.Props.C10", "VaxisModel.Props.C10Shutdown", "VaxisModel.Props.C10Use", "VaxisModel.Props.C10Inventory", "VaxisModel.Props.C10Spinner", "VaxisModel.Props.C10Resume", "VaxisModel.Props.C10Protect", "VaxisModel.Witness.F13", "VaxisModel.Witness.F33", "VaxisModel.Witness.F53", "VaxisModel.Witness.F210", "VaxisModel.Witness.F410"],
+    "modules": ["VaxisModel.Props.C10", "VaxisModel.Props.C10Shutdown", "VaxisModel.Props.C10Use", "VaxisModel.Props.C10Inventory", "VaxisModel.Props.C10Spinner", "VaxisModel.Props.C10Resume", "VaxisModel.Props.C10Protect", "VaxisModel.Props.C10Timer", "VaxisModel.Witness.F13", "VaxisModel.Witness.F33", "VaxisModel.Witness.F53", "VaxisModel.Witness.F210", "VaxisModel.Witness.F410"],
     "extractors": ["C10"],
     "drivers": ["C10"],
     "stateful": True,
@@ -57,8 +57,9 @@ CFG = {
                   "drain_matters / quit_arm_matters show the old stuck / leaking states without them). Assumed, not guaranteed by the code: Resume only after the "
                   "application's Suspend returned and not after Close. lock_order (round 3): branch-structured events, callees qualified by receiver type (by the receiver "
                   "expression's last component: vx/Vx, tw/w, parser/p, m, win), every transitively locking function listed; mutexes are named by the same "
-                  "convention, no type checker is run. The escape timer (C08) is not a component of "
-                  "the shutdown LTS (the timer's emit is released by the same drain as the parser's). The spinner's loop is its own component (SpSys, "
+                  "convention, no type checker is run. Round 4: the escape timer IS a component of the shutdown LTS "
+                  "(Model/ConcTimer: TSys = SSys x timer slot, Parser.mu exclusion between the callback's emit and the parser's rune steps / run's tail, stale generation, any number of lone ESCs): "
+                  "Props/C10Timer.shutdown_completes_with_timer (variant muT, both invariants preserved, at rest all callers returned / parser done / no timer pending), timer_never_emits_into_closed_channel, run_tail_bumps_before_close. The spinner's loop is its own component (SpSys, "
                   "Props/C10Spinner: one live goroutine, ticks never block, Stop ends every spinner goroutine, its posts are posts of the queue LTS); "
                   "nothing in Close stops a spinner (the widget's own Start/Stop life cycle).",
     "technique": "Lean 4 invariants over labelled transition systems; go/ast extractor (lock sites, channel capacities); seeded stress harness, -race child",
